@@ -5,6 +5,10 @@ Lean: Model/XPathApi.lean (setItem/storeAt), Props/C02.lean
 B stream : xp.set on existing node paths in every spelling (stepwise along write histories)
 C evaluator: write histories on the implementation vs a plain nested dict/list reference that
   applied the same writes by ordinary indexing; d[xpath] is v after each write.
+  Hidden lists: lookup reads a single value (a scalar or a dict, under a key or as an element of a list) as the list
+  of this one item - d['a[0]'], d['a[-1]'], d['a[last()]'] ARE d['a'].  The only reading of C02 consistent with that
+  is that these spellings address the existing node itself: the assignment replaces exactly that slot
+  (evaluator hidden_list, and hidden spellings inside the histories).
 """
 import copy
 
@@ -27,6 +31,13 @@ MANIFEST = dict(
 )
 
 VALUES = ["V", 5, None, {"z": 1}, [1, 2], "", True, {"n": {"m": []}}, 0.5, {}, []]
+# index spellings that address a single (non-list) value itself: the hidden-list convention of lookup
+HIDDEN = ["[0]", "[-1]", "[last()]", "/[0]", "[0][-1]", "[ -1 ]", "[0][0]", "[last()][0]"]
+
+
+def hidden_ok(ref, p):
+    """`p` is a node that is not a list: index 0 / -1 / last() on it is the node itself"""
+    return bool(p) and X.valid_pos(ref, p) and not isinstance(X.get_at(ref, p), list)
 
 
 def gen_history(rng, tree, nops):
@@ -36,6 +47,7 @@ def gen_history(rng, tree, nops):
     ref = copy.deepcopy(tree)
     ops = []
     prev = []  # (pos, xp) of earlier writes
+    hidden = {}  # (pos, xp) written through a hidden-list spelling -> the spelling of the node itself
     for _ in range(nops):
         poss = [p for p, _ in X.positions(ref) if p]
         if not poss:
@@ -45,7 +57,9 @@ def gen_history(rng, tree, nops):
         if prev and r < 0.25:
             p, xp = rng.choice(prev)
             # only spellings whose meaning does not depend on the current list lengths can be repeated verbatim
-            if X.valid_pos(ref, p) and "last()" not in xp and "-" not in xp:
+            # (a hidden spelling addresses the node only while the node is not a list)
+            base = hidden.get((tuple(p), xp), xp)
+            if X.valid_pos(ref, p) and "last()" not in base and "-" not in base and (base == xp or hidden_ok(ref, p)):
                 v = copy.deepcopy(rng.choice(VALUES))
                 done = True
         elif prev and r < 0.5:
@@ -68,7 +82,12 @@ def gen_history(rng, tree, nops):
             p = rng.choice(poss)
             xp = X.render(rng, ref, p)
             v = copy.deepcopy(rng.choice(VALUES))
+            if hidden_ok(ref, p) and rng.random() < 0.12:
+                hidden[(tuple(p), xp + (sfx := rng.choice(HIDDEN)))] = xp
+                xp += sfx
         ops.append({"pos": list(p), "xp": xp, "v": v})
+        if (tuple(p), xp) in hidden:
+            ops[-1]["hidden"] = True
         prev.append((tuple(p), xp))
         par = X.get_at(ref, p[:-1])
         par[p[-1]] = copy.deepcopy(v)
@@ -108,10 +127,28 @@ def check_history(c):
         par[op["pos"][-1]] = copy.deepcopy(op["v"])
         if o != ref or enc_val_plain(o) != enc_val_plain(ref):
             return {"step": k, "xp": op["xp"], "tree": repr(o)[:300], "reference": repr(ref)[:300]}
+        if op.get("hidden") and isinstance(v, list):
+            # the node is a list now: the same text addresses an element of it; the stored object is checked in place
+            if X.get_at(o, op["pos"]) is not v:
+                return {"step": k, "xp": op["xp"], "stored_elsewhere": True}
+            continue
         got = core.call(lambda: o[op["xp"]])
         if got[0] != "ok" or got[1] is not v:
             return {"step": k, "xp": op["xp"], "readback": repr(got)[:200]}
     return None
+
+
+def in_known(c, detail):
+    """C02-a (a write through index 0 / -1 / last() on a single value went into a temporary list and was lost) is
+    repaired by fix C03-e; the class counts only while known_findings/C02.json lists it as open"""
+    if "ops" in c and isinstance(detail, dict) and isinstance(detail.get("step"), int) and c["ops"][detail["step"]].get("hidden") \
+            and "C02-a" in {f["id"] for f in core.load_known("C02")[0]}:
+        return "C02-a"
+    return None
+
+
+def witness_fails(f):
+    return check_history(f["witness"]) is not None
 
 
 def enc_val_plain(t):
@@ -135,11 +172,13 @@ def shrink_failure(evaluator, case):
         for op in c["ops"]:
             try:
                 par = X.get_at(ref, op["pos"][:-1])
-                par[op["pos"][-1]]
+                if op.get("hidden") and isinstance(par[op["pos"][-1]], list):
+                    return False        # a hidden spelling addresses the node only while it is not a list
                 par[op["pos"][-1]] = copy.deepcopy(op["v"])
             except Exception:
                 return False
-        return check_history(c) is not None
+        bad = check_history(c)
+        return bad is not None and not in_known(c, bad)
 
     return core.shrink(case, ok, budget=300)
 
@@ -183,7 +222,21 @@ def run(ctx):
     for _ in range(ctx.budget(400, 10000)):
         t = X.gen_plain(rng, rng.choice([2, 3, 4]), "d")
         cases.append({"tree": t, "mode": rng.choice(["n0", "wrap"]), "ops": gen_history(rng, t, rng.randrange(1, 9))})
-    ctx.evaluate("history", cases, check_history, nontrivial=lambda c: len(c["ops"]) > 1)
+    ctx.evaluate("history", cases, check_history, in_known=in_known, nontrivial=lambda c: len(c["ops"]) > 1)
+    # hidden lists: one write through index 0 / -1 / last() on a single value (under a key or an element of a list)
+    rng3 = ctx.rng("hidden")
+    hcases = []
+    for _ in range(ctx.budget(300, 8000)):
+        t = X.gen_plain(rng3, rng3.choice([2, 3]), "d")
+        singles = [p for p, v in X.positions(t) if p and not isinstance(v, list)]
+        if not singles:
+            continue
+        p = rng3.choice(singles)
+        xp = X.render(rng3, t, p) + rng3.choice(HIDDEN)
+        hcases.append({"tree": t, "mode": rng3.choice(["n0", "wrap"]),
+                       "ops": [{"pos": list(p), "xp": xp, "v": copy.deepcopy(rng3.choice(VALUES)), "hidden": True}]})
+    ctx.evaluate("hidden_list", hcases, check_history, in_known=in_known,
+                 nontrivial=lambda c: isinstance(c["ops"][0]["pos"][-1], int) or isinstance(X.get_at(c["tree"], c["ops"][0]["pos"]), dict))
     rk = []
     rng2 = ctx.rng("rootkeys")
     for _ in range(ctx.budget(300, 5000)):
@@ -202,11 +255,14 @@ def run(ctx):
                 if "/" in xp or "[" in xp:
                     for v in ("V", {"z": []}):
                         ex.append({"tree": t, "mode": "n0", "ops": [{"pos": list(p), "xp": xp, "v": v}]})
-    ctx.evaluate("history/exhaustive", ex, check_history)
+                if not isinstance(X.get_at(t, p), list):
+                    for sfx in ("[0]", "[-1]"):
+                        ex.append({"tree": t, "mode": "n0", "ops": [{"pos": list(p), "xp": xp + sfx, "v": "V", "hidden": True}]})
+    ctx.evaluate("history/exhaustive", ex, check_history, in_known=in_known)
     ctx.extra["exhaustive_subspace"] = "all dict-rooted trees with <= %d nodes below the root, every position addressed through an xpath, one write" % nmax
     # B: each step of each history, model vs implementation, starting from the implementation's state
     steps = []
-    for c in cases:
+    for c in cases + hcases:
         o = X.convert(c["tree"], c["mode"])
         for op in c["ops"]:
             steps.append({"tree_enc": enc_val(o), "xp": op["xp"], "v": op["v"]})
@@ -224,4 +280,5 @@ def run(ctx):
     ctx.extra["assumptions"] = [
         "trees have plain-name keys; written values are fresh (deep-copied) objects",
         "every write addresses a node that exists in the current state (evaluated on a plain reference)",
+        "index 0 / -1 / last() on a node that is not a list addresses the node itself (the hidden-list convention of lookup)",
     ]
